@@ -67,14 +67,7 @@ class RecordingBackend(ReportingBackend, ReportingSessionBuilderMixin):
 
 
 def canon_event(ev, names):
-    lab = list(detsched.event_label(ev))
-    out = []
-    for x in lab:
-        if isinstance(x, tuple) and x and x[0] == "thread_id":
-            out.append(("thread", names.get(x[1], "T?%s" % x[1])))
-        else:
-            out.append(x)
-    return out
+    return list(detsched.event_label(ev))
 
 
 def graph_of(tasks):
@@ -249,8 +242,6 @@ def canon_atom(atom, names):
     """Replace raw thread idents inside event labels by controller thread names."""
     def fix(x):
         if isinstance(x, tuple):
-            if len(x) == 2 and x[0] == "thread_id":
-                return ["thread", names.get(x[1], "T?%s" % x[1])]
             return [fix(y) for y in x]
         return x
     return [fix(x) for x in atom]
